@@ -50,6 +50,18 @@ CHECKS = {
    text="A hash-sampled cross-section of the TLC-generated plans of the other checks (matrix product, element-wise expressions, permutations, lazy expressions, slice-write behaviours; thorough: also triangular product, einsum, reductions) is compiled and run under every configuration of a covering array over ISA (scalar, SSE2, SSE4.2, AVX, AVX2+FMA, AVX-512) x C++14/17 x -O0..-O3 x runtime checks x one documented tuning macro. TLC checks the array itself (Config.tla: every factor value, all ISA x std pairs; thorough: all ISA x opt and std x opt pairs and every macro under AVX2 and AVX-512) and the originating trace specification compares each case's outputs under ALL configurations with one L1 value, which for the exact data used is bit-identity across configurations. A translation unit that fails to compile in some configuration is a rejection (compile agreement). Only configuration-dependent rejections are C06 violations.",
    note="Compiler axis is g++ 12 only. Floating results are compared exactly because the data are exact; inexact-data agreement within rounding is not exercised. The quick tier uses 12 configurations and ~400 cases; the thorough tier ~60 configurations.",
    technique="TLC-checked covering array + TLC trace validation of joined multi-configuration traces"),
+ "C15": dict(level=MC, design="3/C15",
+   text="(L2) TLC model-checks NetworkOrder - the layout produced by evaluating a 3-operand network as two pairwise einsums in the order picked by the cost model - against the declared order over all 33,840 (index pattern of rank<=2 on 5 labels, variant) combinations: always an arrangement of the same labels, and TLC exhibits the patterns where it differs (finding D8). (L1) TLC enumerates canonical 3-operand patterns (rank<=2 quick, <=3 thorough) and sampled 4-operand patterns with uniform and distinct extents, double and int32; every recorded result (static extents, every element, which_variant) under SSE2/AVX2/AVX-512, C++17, op-min off and depth-first is validated by TLC against Einsum!Einstein (free labels by first appearance over all lists). A result whose elements are exactly the correct tensor in another free-label order is the named deviation of D8 (and for 3 operands must equal the L2 model's order, else DRIFT); anything else is a violation.",
+   note="Exact small-integer data. Networks in which a pair (or triple) contracts to a scalar do not compile in any configuration and are excluded; 4-operand networks are generated with uniform extents only. 4-operand variants are not modelled at L2.",
+   technique="TLA+ L1 n-ary Einstein sum + L2 order model checked by TLC + TLC-enumerated plan + TLC trace validation"),
+ "C17": dict(level=MC, design="3/C17",
+   text="TLC enumerates (M,K,N) boxes (trapezoidal included) x all 9 Lower/Upper/General tag pairs x f64/f32/i32/i64/c64 x API/backend/expression/matrix-vector forms, plus strata derived from the L2 model (edges {16,17,24,25}, clipped blocks of the AVX2/AVX-512 masked kernel, three-vector blocks). Every call of the real tmatmul/_tmatmul under sse2/avx2/avx512 (thorough: all six ISAs, C++14/17) is recorded and a TLC trace specification judges it against L1 Tmatmul!TriangularProduct: the whole guarded, sentinel-pre-filled MxN block must equal Matmul!Product, structural zeros included. An L2 transcription of find_kfirst/find_klast and the block/clip structure is model-checked exhaustively (M,K,N <= 24; all tag pairs; every reachable vector width and kernel) to show that each block's clipped k-range contains the operands' support and that the blocks partition the result.",
+   note="Conformance is sampled (1603 cases quick, 3391 thorough, two exact-integer data draws each). The L2 clip model is bound to the code through logged constexpr find_kfirst/find_klast tables and vector widths; a mismatch is DRIFT, not a violation. Only the default block-size macros are covered.",
+   technique="TLA+ L1 spec + L2 clip model checked by TLC + TLC-enumerated plan + TLC trace validation"),
+ "C16": dict(level=MC, design="3/C16",
+   text="TLC enumerates the case space of GenReduce (functions, element types, argument kinds, shapes, sign patterns, positions of a single extreme element, with the integer data part of the state) and checks exactness preconditions and fold theorems on every case. Every recorded call is judged by the L1 operators of Reduce.tla: exact integer equality for sum, product, min, max (value and membership), inner, trace, closed-form determinants (against Bareiss) and predicates; an integer bracket that pins the sum of squares for norm; a condition-scaled backward-error bound for LU and QR determinants on diagonally dominant integer matrices. The L2 model MC_ReduceDesign proves the vector-accumulator, scalar-tail and horizontal-step scheme refines the folds exactly for neutral seeds, for every width and residue.",
+   note="Bounded: sizes 1..35 and four rank-2/3 shapes, determinant sizes <= 6 (8 thorough), small integer data so that every evaluation order is exact. D4 (none_of = any_of) and D20 (QR determinant = |det|) are listed known findings recognised as named deviations; integer norm, integer LU/QR determinants and determinant(Tensor<T,1,1>) with Simple are outside the domain.",
+   technique="TLA+ L1 fold semantics + L2 accumulator model checked by TLC + TLC-enumerated plan + TLC trace validation"),
 }
 NA_REASON = "check not built yet (work in progress in this session; see DESIGN.md section 3 for the planned model)"
 
